@@ -618,6 +618,88 @@ pub fn default_answer(req: &Req) -> Answer {
     }
 }
 
+/// Base types: which value type a base type entry (encoding, byte size) stands for - what a caller answers a
+/// base-type request with. Every encoding 0..=0x14 (and two vendor values) x byte sizes, through
+/// `ValueType::from_encoding` and through `ValueType::from_entry` on assembled DW_TAG_base_type entries.
+fn check_value_types(cx: &mut Ctx) -> R {
+    use crate::dieasm::{build_info, Abbrev, DieSpec, UnitKind, UnitSpec, AV, F_DATA1};
+    use gimli::ValueType as VT;
+    let model = |enc: u8, size: u64| -> Option<VT> {
+        Some(match (enc, size) {
+            (0x05, 1) => VT::I8,
+            (0x05, 2) => VT::I16,
+            (0x05, 4) => VT::I32,
+            (0x05, 8) => VT::I64,
+            (0x07, 1) => VT::U8,
+            (0x07, 2) => VT::U16,
+            (0x07, 4) => VT::U32,
+            (0x07, 8) => VT::U64,
+            (0x04, 4) => VT::F32,
+            (0x04, 8) => VT::F64,
+            _ => return None,
+        })
+    };
+    let encs: Vec<u8> = (0u8..=0x14).chain([0x80u8, 0xff]).collect();
+    let sizes = [0u64, 1, 2, 3, 4, 5, 8, 16, 255];
+    for enc in &encs {
+        for size in sizes {
+            ensure_eq!(VT::from_encoding(gimli::DwAte(*enc), size), model(*enc, size), "c07/value-type/from_encoding", "encoding {:#x} size {}", enc, size);
+            // the same through an entry: DW_TAG_base_type with byte_size and encoding, in either order, optionally with a
+            // default or a non-default DW_AT_endianity, and once under another tag
+            for variant in 0..5u8 {
+                let mut attrs = vec![(0x0bu16, F_DATA1, 0i64), (0x3e, F_DATA1, 0)];
+                let mut vals = vec![AV::U(size), AV::U(*enc as u64)];
+                if variant == 1 {
+                    attrs.reverse();
+                    vals.reverse();
+                }
+                if variant == 2 {
+                    attrs.push((0x65, F_DATA1, 0));
+                    vals.push(AV::U(0));
+                }
+                if variant == 3 {
+                    attrs.push((0x65, F_DATA1, 0));
+                    vals.push(AV::U(1));
+                }
+                let tag = if variant == 4 { 0x16 } else { 0x24 };
+                let cfg = Cfg { big: false, runtime_endian: true, address_size: 8, format64: false, version: 4 };
+                let unit = UnitSpec {
+                    cfg,
+                    kind: UnitKind::Compile,
+                    abbrevs: vec![Abbrev { code: 1, tag: 0x11, children: true, attrs: vec![] }, Abbrev { code: 2, tag, children: false, attrs }],
+                    abbrev_group: 0,
+                    root: DieSpec { id: 0, abbrev: 0, vals: vec![], children: vec![DieSpec { id: 1, abbrev: 1, vals, children: vec![] }] },
+                    trailing_nulls: 0,
+                };
+                if size > 255 {
+                    continue;
+                }
+                let built = build_info(std::slice::from_ref(&unit), false);
+                let endian = RunTimeEndian::Little;
+                let di = gimli::DebugInfo::new(&built.info, endian);
+                let da = gimli::DebugAbbrev::new(&built.abbrev, endian);
+                let header = di.units().next().ok().flatten().ok_or_else(|| Failure { sig: "c07/harness/value-type-unit".into(), detail: String::new() })?;
+                let abbrevs = header.abbreviations(&da).map_err(|e| Failure { sig: "c07/harness/value-type-abbrevs".into(), detail: format!("{e:?}") })?;
+                let mut cur = header.entries(&abbrevs);
+                let _ = cur.next_dfs();
+                let Ok(Some(entry)) = cur.next_dfs() else { fail!("c07/harness/value-type-entry", "") };
+                let want = if variant == 4 || variant == 3 { None } else { model(*enc, size) };
+                let got = VT::from_entry(entry).map_err(|e| Failure { sig: "c07/value-type/from_entry-error".into(), detail: format!("{e:?}") })?;
+                ensure_eq!(got, want, "c07/value-type/from_entry", "encoding {:#x} size {} variant {}", enc, size, variant);
+            }
+        }
+    }
+    // bit sizes that reinterpret / typed literals rely on
+    for (t, bits) in [(VT::I8, 8u32), (VT::U8, 8), (VT::I16, 16), (VT::U16, 16), (VT::I32, 32), (VT::U32, 32), (VT::F32, 32), (VT::I64, 64), (VT::U64, 64), (VT::F64, 64)] {
+        ensure_eq!(t.bit_size(0xffff_ffff), bits, "c07/value-type/bit_size", "{:?}", t);
+    }
+    for (mask, bits) in [(0xffu64, 8u32), (0xffff, 16), (0xffff_ffff, 32), (u64::MAX, 64)] {
+        ensure_eq!(VT::Generic.bit_size(mask), bits, "c07/value-type/bit_size-generic", "mask {:#x}", mask);
+    }
+    cx.nt();
+    Ok(())
+}
+
 pub struct ExprCase {
     pub cfg: Cfg,
     pub code: Vec<u8>,
@@ -989,6 +1071,10 @@ impl Prop for C07 {
             if ch.chance(60) {
                 prog.push(UN[ch.below(3)].clone());
             }
+            if ch.chance(70) {
+                // an unsigned constant added to a value of whatever type is on top
+                prog.push(MOp::PlusUconst(ch.pick(&[0u64, 1, 3, 127, 128, 255, 256, 0xffff_ffff, 1 << 32, u64::MAX])));
+            }
             if ch.chance(128) {
                 prog.push(MOp::StackValue);
             }
@@ -1043,6 +1129,9 @@ impl Prop for C07 {
                     }
                 }
             }
+        }
+        if shard == 0 {
+            ex.case("value-types", &[], |cx| check_value_types(cx));
         }
         ex.tally(n, n, "exhaustive-decode-all-opcode-bytes");
         ex.complete("every opcode byte 0x00..0xff x 5 operand patterns x address sizes x formats/versions x byte orders: decode vs model");
